@@ -192,6 +192,11 @@ PROPS = {    "C01": {
              "quick": {"entry": "VerifHarness_C07_crash", "flags": ["-unwind", "64", "-concrete-clock"], "sample_paths": 2,
                        "bounds": {"prior_runs": 1, "interrupted_operation": "new run (open, 2 writes, close+compaction) | manual update | rename | remove-old",
                                   "crash_points": "every mutating FS operation (open/create, write, flush, remove, rename); torn write length symbolic", "names": "a, a_c"}}},
+            {"name": "C07.crashthen", "pkg": "./internal/persistence/jsondb", "replay": "R1c",
+             "must_assert": ["C07.then/acknowledged-edit-is-returned-by-lookup", "C07.then/recent-history-shows-the-acknowledged-edit", "C07.then/latest-status-shows-the-acknowledged-edit"],
+             "quick": {"entry": "VerifHarness_C07_crashthen", "flags": ["-unwind", "64", "-concrete-clock"], "sample_paths": 2,
+                       "bounds": {"prior_runs": 1, "interrupted_operation": "new run (open, 2 writes, close+compaction), killed at every mutating FS operation; torn write length symbolic",
+                                  "then": "a fresh process applies a manual status update to the interrupted or to the completed run; lookup / recent / latest must show it"}}},
         ],
         "assumptions": ["kill = loss of user-space state only (page cache survives; no power loss); directory operations atomic; a torn JSON line never parses",
                         "crash counterexamples are reported from the symbolic trace (a kill cannot be injected into the in-process native replay)"],
